@@ -442,6 +442,16 @@ Definition r_open (w : rworld) (o : robj) : option robj :=
       else None
   end.
 
+(* Reader(file, nc=, ns=, fs=) WITHOUT a meta file (tree at 3b02450): both branches of open() leave the
+   announced sample count alone (`... and self.meta is not None`); the .bin branch maps ns*nc*2 bytes
+   (np.memmap raises ValueError beyond the file), the .cbin branch opens whatever ns says.
+   Result: the exposed sample count, None = ValueError. *)
+Definition r_open_nometa (w : rworld) (f : dfile) (ns : Z) : option Z :=
+  match f with
+  | DBin => if (0 <? ns) && (ns * w_nc w * 2 <=? fsize w DBin) then Some ns else None
+  | DCbin => Some ns
+  end.
+
 Inductive rop :=
 | RNop                          (* Reader(..., open=False): construction only *)
 | ROpen
